@@ -439,7 +439,25 @@ func c08Scenarios(thorough bool) []*e1Scenario {
 	if thorough {
 		dInc = 4
 	}
+	// the cache is brought up to date with the log when it is loaded: a small
+	// alphabet explored one level deeper, so that several attestation and
+	// policy entries lie between the point the cache was written at and the
+	// entry that is verified (the catch-up walks them newest first)
+	catchUpMenu := func(h *hist.Hist, depth int) []hist.Event {
+		return []hist.Event{
+			{Kind: "policy", Policy: 1},
+			{Kind: "approve", Ref: refTag, Commit: "tagA", Signers: []string{"P1"}},
+			{Kind: "approve", Ref: refMain, Commit: "c1", Signers: []string{"P1", "P2"}},
+			{Kind: "push", Ref: refMain, Commit: "c1", Signer: "P0"},
+			{Kind: "push", Ref: refMain, Commit: "c1", Signer: "P1"},
+		}
+	}
+	dCatch := 4
+	if thorough {
+		dCatch = 5
+	}
 	return []*e1Scenario{
+		{Name: "C08/cache-catch-up", World: c08World, Policies: c08Policies(), Prefix: prefix, Menu: catchUpMenu, Depth: dCatch, Refs: []string{refMain}, Judge: c08Judge(false, false)},
 		{Name: "C08/open-incident", World: c08World, Policies: c08Policies(), Prefix: incidentPrefix, Menu: incidentMenu, Depth: dInc, Refs: []string{refMain, refFeat}, Judge: c08Judge(true, false)},
 		{Name: "C08/twice-advanced-caches", World: c08World, Policies: c08Policies(), Prefix: prefix, Menu: c08Menu, Depth: dTwice, Refs: []string{refMain, refFeat, refTag}, Judge: c08Judge(true, true)},
 		{Name: "C08/advanced-caches", World: c08World, Policies: c08Policies(), Prefix: prefix, Menu: c08Menu, Depth: dFull, Refs: []string{refMain, refFeat, refTag}, Judge: c08Judge(true, false)},
@@ -455,11 +473,12 @@ func TestC08(t *testing.T) {
 		}
 	}()
 	scs := c08Scenarios(evid.Thorough())
-	col.Bound("events_after_prefix_populated", scs[3].Depth)
-	col.Bound("events_after_prefix_advanced", scs[2].Depth)
-	col.Bound("events_after_prefix_advanced_twice", scs[1].Depth)
-	col.Bound("events_after_open_incident_prefix", scs[0].Depth)
-	col.Rule("every history of <= %d events (cache advanced by an earlier verification: <= %d) after [policy; push] over {pushes to main by authorised / later de-authorised / unknown keys, push to an unprotected ref, two recordings of a tag under a threshold-2 rule, approvals, three policy states (incl. de-authorisation and threshold raise), skip annotations}; principals share no keys. For every history: cache-less first-time verdict (full, latest-only) for every reference = baseline; then the same under (a) repetition / other references first on one store, (b) a cache populated at EVERY earlier log length k and carried forward untouched, (c) that cache advanced by every single earlier verification (mode x ref x length j>=k), (c') histories of <= %d events: that cache advanced by every ordered PAIR of earlier verifications (at lengths k <= j <= j2), (d) VerifyRefFromEntry from every entry reached by an earlier successful full verification vs full; and the ref listing before/after. No expected values are written: every comparison is between two runs of the real code. (e) the same as (b)+(c) for every history of <= %d events after a prefix that leaves a revoked violation open (repairs by authorised/unknown keys, further violations, their revocations, a policy change), so that verifications ending in an error and the recovery workflow's own cache writes are among the advancing verifications. A class is (configuration, mode, with-cache verdict, baseline verdict)", scs[3].Depth, scs[2].Depth, scs[1].Depth, scs[0].Depth)
+	col.Bound("events_after_prefix_populated", scs[4].Depth)
+	col.Bound("events_after_prefix_advanced", scs[3].Depth)
+	col.Bound("events_after_prefix_advanced_twice", scs[2].Depth)
+	col.Bound("events_after_open_incident_prefix", scs[1].Depth)
+	col.Bound("events_after_prefix_catch_up", scs[0].Depth)
+	col.Rule("every history of <= %d events (cache advanced by an earlier verification: <= %d) after [policy; push] over {pushes to main by authorised / later de-authorised / unknown keys, push to an unprotected ref, two recordings of a tag under a threshold-2 rule, approvals, three policy states (incl. de-authorisation and threshold raise), skip annotations}; principals share no keys. For every history: cache-less first-time verdict (full, latest-only) for every reference = baseline; then the same under (a) repetition / other references first on one store, (b) a cache populated at EVERY earlier log length k and carried forward untouched, (c) that cache advanced by every single earlier verification (mode x ref x length j>=k), (c') histories of <= %d events: that cache advanced by every ordered PAIR of earlier verifications (at lengths k <= j <= j2), (d) VerifyRefFromEntry from every entry reached by an earlier successful full verification vs full; and the ref listing before/after. No expected values are written: every comparison is between two runs of the real code. (e) the same as (b)+(c) for every history of <= %d events after a prefix that leaves a revoked violation open (repairs by authorised/unknown keys, further violations, their revocations, a policy change), so that verifications ending in an error and the recovery workflow's own cache writes are among the advancing verifications. (f) (b) again one level deeper (<= %d events) over the five events {de-authorising policy, two different approvals (attestation entries), push by the de-authorised / still authorised key}, so that several policy and attestation entries lie between the cache's scanned-up-to point and the verified entry. A class is (configuration, mode, with-cache verdict, baseline verdict)", scs[4].Depth, scs[3].Depth, scs[2].Depth, scs[1].Depth, scs[0].Depth)
 	col.Assume("principals share no keys (as quantified); the process-wide rsl entry cache is reset before every compared run")
 	for _, sc := range scs {
 		sc.keepSnaps = true
